@@ -301,7 +301,9 @@ C04_Step(c, c2, g, ln) ==
           <<IsContL(ln) \/ Mid(ln) \/ \A i \in 1..Len(cf) : justified(cf[i]), "C04.connect_outcome_unjustified", <<s.op, IF cf # <<>> THEN cf[1] ELSE <<>> >> >>,
           <<connackOK \/ Mid(ln), "C04.connack_without_outcome", <<>> >>,
           <<~staleTimeout \/ ln.fx = <<>>, "C04.timeout_acts_after_outcome", <<ShortFx(ln)>> >>,
-          <<~Ends(ln, "lost") \/ ln.post.state[s.a] = "IdleState", "C04.not_idle_after_loss", <<>> >>,
+          \* (judged where the loss handling first hands control to the application - the whole step, or its part before a
+          \*  re-entrant call, which may itself be a connect())
+          <<s.op # "lost" \/ ln.post.state[s.a] = "IdleState", "C04.not_idle_after_loss", <<>> >>,
           <<\A i \in 1..Len(cbs) : s.op = "fire" /\ <<cbs[i].a, cbs[i].g, cbs[i].reason>> \in g.exp \ g.done, "C04.unexpected_notification", <<s.op>> >>,
           <<\A i, j \in 1..Len(cbs) : i # j => <<cbs[i].a, cbs[i].g>> # <<cbs[j].a, cbs[j].g>>, "C04.notified_twice", <<>> >> >>,
        Len(cf) + Len(cbs) + (IF s.op = "connect" THEN 1 ELSE 0))
